@@ -19,6 +19,8 @@ ASSUME Out("keyed_2", Keyed(2))
 ASSUME Out("keyed_3", Keyed(3))
 ASSUME Out("keyeddeep", KeyedDeep)
 ASSUME Out("confusable", Confusable)
+ASSUME Out("deepobj", DeepObj)
+ASSUME Out("keyed2k", Keyed2K)
 ASSUME Out("objptr", ObjPtr)
 ASSUME Out("ptrdeep", PtrDeep)
 =============================================================================
